@@ -49,7 +49,9 @@ func cmdDump(args []string) int {
 	repo := fs.String("repo", "/repo", "repository")
 	smt := fs.String("smt", "", "print the SMT query of the obligation with this name")
 	timeout := fs.Int("timeout", 10000, "ms per obligation")
+	layer := fs.String("layer", "", "property whose contract layer is active (default: all clauses)")
 	fs.Parse(args)
+	activeLayer = *layer
 	w, err := loadWorld(*repo, true)
 	if err != nil {
 		fmt.Fprintln(os.Stderr, err)
